@@ -1647,17 +1647,19 @@ def _allocate_compact_arrays(
 
   alloc_cJ = compact and not is_sparse(mjm)
 
-  d.cM = wp.empty((nw, nvp, nvp), dtype=float)
-  d.cqLD = wp.empty((nw, nvp, nvp), dtype=float)
-  d.crhs = wp.empty((nw, nvp, 1), dtype=float)
-  d.cx = wp.empty((nw, nvp, 1), dtype=float)
-  d.cJ = wp.empty((nw, njp, nvp), dtype=float) if alloc_cJ else wp.empty((0, 0, 0), dtype=float)
-  d.cMa = wp.empty((nw, nvp), dtype=float)
-  d.cqfrc_smooth = wp.empty((nw, nvp), dtype=float)
-  d.cqacc_smooth = wp.empty((nw, nvp), dtype=float)
-  d.cqacc_warmstart = wp.empty((nw, nvp), dtype=float)
-  d.cqacc = wp.empty((nw, nvp), dtype=float)
-  d.cqfrc_constraint = wp.empty((nw, nvp), dtype=float)
+  # zero-initialized like the full-size Data arrays they shadow: the solver's fast path keeps
+  # (and reads) the previous qfrc_constraint when no constraint changed state
+  d.cM = wp.zeros((nw, nvp, nvp), dtype=float)
+  d.cqLD = wp.zeros((nw, nvp, nvp), dtype=float)
+  d.crhs = wp.zeros((nw, nvp, 1), dtype=float)
+  d.cx = wp.zeros((nw, nvp, 1), dtype=float)
+  d.cJ = wp.zeros((nw, njp, nvp), dtype=float) if alloc_cJ else wp.empty((0, 0, 0), dtype=float)
+  d.cMa = wp.zeros((nw, nvp), dtype=float)
+  d.cqfrc_smooth = wp.zeros((nw, nvp), dtype=float)
+  d.cqacc_smooth = wp.zeros((nw, nvp), dtype=float)
+  d.cqacc_warmstart = wp.zeros((nw, nvp), dtype=float)
+  d.cqacc = wp.zeros((nw, nvp), dtype=float)
+  d.cqfrc_constraint = wp.zeros((nw, nvp), dtype=float)
 
 
 def _initial_body_awake(mjm: mujoco.MjModel, nworld: int, init_asleep: bool) -> np.ndarray:
